@@ -653,3 +653,4 @@ MANIFEST["text"] += ' Also: the batcher is built after the reset has re-installe
 MANIFEST["text"] += ' Receivers of the per-model dispatchers are resolved through `for m in (self.a, self.b): m.f()`; a strict subset of the stepped models is a definite verdict.'
 MANIFEST["text"] += " Every store to _rng_seed stores the seed unreduced (a `% 2**32` belongs at torch's manual_seed, not in the attribute the numpy generator is rebuilt from)."
 MANIFEST["text"] += ' R4 also: every definition of the batcher iterated in reconstruct is the SimpleBatcher built in this call (an object kept on self from an earlier call holds the pre-reset generator).'
+MANIFEST["text"] += " R7: index arrays that are reordered in place are the batcher's own (coupled: call-cached producer ∧ in-place shuffle)."
